@@ -244,6 +244,18 @@ theorem renamed_as_file_witness :
       (.dir [("f", .file "x" false)])
     r.2 = none ∧ isFile r ["m"] "" false = true ∧ r'.2 = none ∧ isFile r' ["g"] "x" false = true := by decide
 
+/-- a file below a directory becomes a symlink while the directory is renamed:
+the old object is deleted at its OLD path after the renames are finished
+(NoSuchFile); deleting at the new path works -/
+theorem kind_change_below_renamed_dir_witness :
+    let t : Tree := [⟨["e"], .dir, "", false, ""⟩, ⟨["e", "a"], .symlink, "", false, "t1"⟩]
+    let d : Delta := { renamed := [⟨["d"], ["e"], false⟩], kindChanged := [⟨["d", "a"], ["e", "a"], .file, .symlink⟩] }
+    let remote : Node := .dir [("d", .dir [("a", .file "x" false)])]
+    let c : Cfg := { renames := .childrenFirst, robustSymlinks := true }
+    (uploadInc c [] t d remote).2 = some .noSuchFile ∧
+    (uploadInc { c with kindChangeAtNew := true } [] t d remote).2 = none ∧
+    isLink (uploadInc { c with kindChangeAtNew := true } [] t d remote) ["e", "a"] "t1" = true := by decide
+
 /-- `upload --full` onto an existing remote never deletes what left the tree -/
 theorem full_upload_keeps_stale_witness :
     let r := uploadFull {} [] [⟨["a"], .file, "x", false, ""⟩] (.dir [("a", .file "old" false), ("gone", .file "y" false)])
@@ -302,13 +314,15 @@ theorem renameSteps_ok (ign : List String) (rs : List Renamed) (k : Nat)
         · exact ih' st h q hq
 
 /-- **Ignored paths are never addressed.**  For every tree, delta and ignore
-list in which no rename crosses the ignore boundary, every remote path named
+list in which no rename (and no kind change below a renamed directory) crosses
+the ignore boundary, every remote path named
 by a step of the incremental plan (either discipline, either symlink variant)
 is a path that is not ignored, or one of the temporary names; and a full
 upload names only paths that are not ignored.  (`ignored_rename_boundary_witness`
 shows what happens when a rename does cross the boundary.) -/
 theorem ignored_never_addressed (c : Cfg) (ign : List String) (t : Tree) (d : Delta)
-    (hb : ∀ r ∈ d.renamed, ignored ign r.old = ignored ign r.new) :
+    (hb : ∀ r ∈ d.renamed, ignored ign r.old = ignored ign r.new)
+    (hk : ∀ k ∈ d.kindChanged, ignored ign k.old = ignored ign k.path) :
     (∀ st ∈ planInc c ign t d, ∀ q ∈ st.paths, okPath ign q) ∧
     (∀ st ∈ planFull ign t, ∀ q ∈ st.paths, ignored ign q = false) := by
   constructor
@@ -332,8 +346,9 @@ theorem ignored_never_addressed (c : Cfg) (ign : List String) (t : Tree) (d : De
       have hx2 := (List.mem_filter.mp hx).2
       simp only [Bool.not_eq_eq_eq_not, Bool.not_true] at hx2
       rcases List.mem_append.mp he with he | he
-      · cases hk : x.oldKind <;> rw [hk] at he <;> simp at he <;> subst he <;> simp [Step.paths] at hq <;>
-          subst hq <;> exact Or.inl hx2
+      · have hxo : ignored ign x.old = false := by rw [hk x (List.mem_filter.mp hx).1]; exact hx2
+        cases hko : x.oldKind <;> rw [hko] at he <;> simp at he <;> subst he <;> simp [Step.paths] at hq <;>
+          subst hq <;> (split <;> first | exact Or.inl hx2 | exact Or.inl hxo)
       · exact createSteps_ok c ign t x.path hx2 st he q hq
     · obtain ⟨x, hx, he⟩ := List.mem_flatMap.mp h
       have hx2 := (List.mem_filter.mp hx).2
